@@ -812,6 +812,8 @@ def run(ctx) -> None:
     ctx.guard(r05_15)
     ctx.guard(r05_13)
     ctx.guard(r05_12)
+    from .c01 import r01_2 as _r01_2, verify_family as _vf
+    ctx.guard_as("R05.17", _r01_2, _vf(ctx.eng))  # every signature of a general JSON JWS passes the algorithm gate: the verifying loop is not left at the first success
     ctx.guard(r05_10)
     ctx.guard(r05_16)
     ctx.guard(r05_1)
